@@ -212,7 +212,7 @@ impl<'d> BuildCtx<'d> {
         for op in ops {
             nth += 1;
             let chain = nth % 3 == 1;
-            if nth % 4 == 2 {
+            if nth % 4 == 2 && ops.len() <= 3000 {
                 // a builder may be printed at any time while it is being filled (whatever
                 // formatting remembers must not outlive the next registration)
                 let _ = catch_unwind(AssertUnwindSafe(|| format!("{:?}", b)));
@@ -343,6 +343,37 @@ impl<'d> BuildCtx<'d> {
         specs.push(("{:#?}".to_string(), catch_unwind(AssertUnwindSafe(|| format!("{:#?}", b))).map_err(|p| panic_message(&p))));
         specs.push(("{:.3?}".to_string(), catch_unwind(AssertUnwindSafe(|| format!("{:.3?}", b))).map_err(|p| panic_message(&p))));
         specs.push(("{:>28?}".to_string(), catch_unwind(AssertUnwindSafe(|| format!("{:>28?}", b))).map_err(|p| panic_message(&p))));
+        // a sink that reports an error part-way (a bounded log line): the print stops with Err, and
+        // the next print of the builder - on the same thread - is complete and correct again
+        struct Bounded(usize);
+        impl std::fmt::Write for Bounded {
+            fn write_str(&mut self, s: &str) -> std::fmt::Result {
+                if s.len() > self.0 {
+                    self.0 = 0;
+                    return Err(std::fmt::Error);
+                }
+                self.0 -= s.len();
+                Ok(())
+            }
+        }
+        if let Some(Ok(full)) = self.out.real_debug.get(&key) {
+            let len = full.len();
+            let mut failed = Ok(());
+            for cut in [len / 3, len / 2, len.saturating_sub(3), 17] {
+                let r = catch_unwind(AssertUnwindSafe(|| {
+                    use std::fmt::Write;
+                    let _ = write!(Bounded(cut), "{:?}", b);
+                }));
+                if let Err(p) = r {
+                    failed = Err(panic_message(&p));
+                }
+            }
+            let again = match failed {
+                Ok(()) => catch_unwind(AssertUnwindSafe(|| format!("{:?}", b))).map_err(|p| panic_message(&p)),
+                Err(m) => Err(m),
+            };
+            specs.push(("{:?} (after prints into a sink that failed part-way)".to_string(), again));
+        }
         self.out.real_debug_specs.insert(key, specs);
         if let Some(l) = self.ask("layout") {
             self.out.model_layouts.insert(key, l);
